@@ -2,6 +2,7 @@
 import TracingModel.Props.C01
 import TracingModel.Props.C02
 import TracingModel.Props.C03
+import TracingModel.Props.C04
 import TracingModel.Props.C05
 import TracingModel.Props.C06
 import TracingModel.Props.C07
